@@ -986,6 +986,150 @@ def parse_stl_ascii(text):
         tris.append(tri)
 
 
+# ================================================================================================ carried attributes
+# What a file says about the well-known attributes some formats carry next to the geometry: per-vertex normals and
+# texture coordinates of OBJ (vn / vt records, referred to corner by corner in the 'f' records), the three extra columns
+# of an xyz record, the facet normals of STL.  Readers and writers of exactly these records, nothing else.
+def parse_obj_refs(text):
+    """-> {"VT": [[u, v], ...], "VN": [[x, y, z], ...], "F": [[vertex per corner], ...], "FT": [[vt index or None per corner],
+    ...], "FN": [[vn index or None per corner], ...]} (0-based; relative references resolved where the record stands)"""
+    vt, vn, nv, recs = [], [], 0, []
+    for raw in text.splitlines():
+        toks = _strip_comment(raw).split()
+        if not toks:
+            continue
+        key, args = toks[0], toks[1:]
+        if key == "v":
+            nv += 1
+        elif key == "vt":
+            if len(args) < 2:
+                raise RefParseError("vt with fewer than 2 numbers")
+            vt.append([_f(a) for a in args[:2]])
+        elif key == "vn":
+            if len(args) != 3:
+                raise RefParseError(f"vn with {len(args)} numbers")
+            vn.append([_f(a) for a in args])
+        elif key == "f":
+            recs.append((args, nv, len(vt), len(vn)))
+
+    def res(tok, seen, total, what):
+        i = _i(tok)
+        if i == 0:
+            raise RefParseError(f"{what} index 0")
+        i = i - 1 if i > 0 else seen + i
+        if not 0 <= i < total:
+            raise RefParseError(f"{what} reference {tok} out of range")
+        return i
+
+    out = {"VT": vt, "VN": vn, "F": [], "FT": [], "FN": []}
+    for args, sv, st, sn in recs:
+        fv, ft, fn = [], [], []
+        for a in args:
+            parts = a.split("/")
+            if len(parts) > 3:
+                raise RefParseError(f"corner reference {a!r}")
+            fv.append(res(parts[0], sv, nv, "vertex"))
+            ft.append(res(parts[1], st, len(vt), "vt") if len(parts) > 1 and parts[1] else None)
+            fn.append(res(parts[2], sn, len(vn), "vn") if len(parts) > 2 and parts[2] else None)
+        out["F"].append(fv); out["FT"].append(ft); out["FN"].append(fn)
+    return out
+
+
+def write_obj_carried(m, VN=None, VT=None):
+    """OBJ file of the model m carrying one normal per vertex (VN, len == number of vertices) and / or one texture
+    coordinate per face corner (VT, corners counted face after face).  The vn / vt records are written in REVERSE order, so
+    that the number of a record never equals the number of the vertex / corner that refers to it (except in the middle)."""
+    out = ["v " + " ".join(repr(float(c)) for c in p) for p in m["V"]]
+    nv, nc = len(m["V"]), sum(len(f) for f in m["F"])
+    if VT is not None:
+        out += ["vt " + " ".join(repr(float(c)) for c in t) for t in reversed(VT)]
+    if VN is not None:
+        out += ["vn " + " ".join(repr(float(c)) for c in n) for n in reversed(VN)]
+    out += [f"l {a + 1} {b + 1}" for a, b in m["E"]]
+    c = 0
+    for f in m["F"]:
+        parts = []
+        for v in f:
+            t = str(nc - c) if VT is not None else ""
+            n = str(nv - v) if VN is not None else ""
+            parts.append(f"{v + 1}/{t}/{n}" if VN is not None else f"{v + 1}/{t}" if VT is not None else f"{v + 1}")
+            c += 1
+        out.append("f " + " ".join(parts))
+    return "\n".join(out) + "\n"
+
+
+def parse_xyz_extra(text):
+    """the columns after the coordinates, one list per point record (empty for a three-column record)"""
+    rows = []
+    for k, raw in enumerate(text.splitlines()):
+        r = raw.split()
+        if not r or (k == 0 and len(r) == 1):
+            continue
+        if len(r) not in (3, 6):
+            raise RefParseError(f"xyz record with {len(r)} fields")
+        rows.append([_f(x) for x in r[3:]])
+    return rows
+
+
+def write_xyz_carried(m, N):
+    return "".join(" ".join(repr(float(c)) for c in list(p) + list(n)) + "\n" for p, n in zip(m["V"], N))
+
+
+def parse_stl_binary_normals(data: bytes):
+    parse_stl_binary(data)
+    (n,) = struct.unpack_from("<I", data, 80)
+    return [list(struct.unpack_from("<3f", data, 84 + 50 * k)) for k in range(n)]
+
+
+def write_stl_ascii_carried(tris, normals):
+    out = ["solid carried"]
+    for t, n in zip(tris, normals):
+        out.append("facet normal " + " ".join(repr(float(c)) for c in n))
+        out.append(" outer loop")
+        out += ["  vertex " + " ".join(repr(float(c)) for c in p) for p in t]
+        out += [" endloop", "endfacet"]
+    out.append("endsolid carried")
+    return "\n".join(out) + "\n"
+
+
+def parse_stl_ascii_normals(text):
+    """the 'facet normal' triples of an ASCII STL, in file order (the file must be one the token-stream reader accepts)"""
+    parse_stl_ascii(text)
+    toks = text.split()
+    return [[_f(toks[k + 2]), _f(toks[k + 3]), _f(toks[k + 4])] for k in range(len(toks) - 4)
+            if toks[k] == "facet" and toks[k + 1] == "normal"]
+
+
+def selftest_carried():
+    m = {"V": [[0.0, 0.5, 1.0], [1.0, 0.0, 2.0], [1.0, 1.0, -3.0], [0.0, 1.0, 0.25], [7.0, 8.0, 9.0]], "E": [[0, 4]],
+         "F": [[0, 1, 2], [2, 3, 0, 1]], "C": [], "attrs": {}}
+    VN = [[0.1 * i, -1.0 * i, 1.0 / 3 + i] for i in range(5)]
+    VT = [[c / 8.0, 1.0 - c / 16.0] for c in range(7)]
+    for vn, vt in ((VN, None), (None, VT), (VN, VT), (None, None)):
+        text = write_obj_carried(m, vn, vt)
+        geo, r = parse_obj(text), parse_obj_refs(text)
+        assert geo["V"] == m["V"] and geo["F"] == m["F"] == r["F"] and geo["E"] == m["E"], (vn, vt)
+        c = 0
+        for f, ft, fn in zip(r["F"], r["FT"], r["FN"]):
+            for v, t, n in zip(f, ft, fn):
+                assert (n is None) == (vn is None) and (t is None) == (vt is None)
+                assert vn is None or r["VN"][n] == VN[v]
+                assert vt is None or r["VT"][t] == VT[c]
+                c += 1
+        assert vn is None or any(n != v for f, fn in zip(r["F"], r["FN"]) for v, n in zip(f, fn))
+    rel = parse_obj_refs("v 0 0 0\nv 1 0 0\nv 0 1 0\nvt 0 0\nvt 1 1\nvn 0 0 1\nf -3/-2/-1 -2/-1/1 3//1\n")
+    assert rel["F"] == [[0, 1, 2]] and rel["FT"] == [[0, 1, None]] and rel["FN"] == [[0, 0, 0]]
+    text = write_xyz_carried(m, VN)
+    assert parse_xyz(text)["V"] == m["V"] and parse_xyz_extra(text) == VN and parse_xyz_extra("3\n1 2 3\n") == [[]]
+    tris = [[[0.0, 0.5, 1.0], [f32(0.1), 2.0, 3.0], [-1.0, -2.0, 4.0]], [[1.0, 0.0, 0.0], [0.0, 1.0, 0.0], [0.0, 0.0, 1.0]]]
+    nrm = [[0.25, -0.5, 2.0], [f32(0.1), 0.0, -1.0]]
+    text = write_stl_ascii_carried(tris, nrm)
+    assert parse_stl_ascii(text) == tris and parse_stl_ascii_normals(text) == nrm
+    assert parse_stl_binary_normals(write_stl_binary(tris, 1)) == [_normal(t) for t in tris]
+    assert parse_stl_binary_normals(write_stl_binary(tris)) == [[0.0, 0.0, 0.0]] * 2
+    return True
+
+
 # ================================================================================================ registry
 PARSERS = {"obj": parse_obj, "mesh": parse_medit, "off": parse_off, "tet": parse_tet, "xyz": parse_xyz,
            "geogram_ascii": parse_geogram}
